@@ -51,7 +51,8 @@ Keep(vs) == UNCHANGED vs
 Reset == Is("reset") /\ cfgSem' = Ev.n /\ nAds' = Ev.c /\ cfgSeg' = Ev.g /\ Fresh       \* g: the segment depth limit of this run (0: none)
 
 (* events without a state change *)
-Skips == {"w.next", "i.tick", "x.wait", "env.nested", "env.announce.denied", "d.select", "g.entry", "h.prelock", "env.xcancel", "env.announce.ret", "env.explicit",
+Skips == {"env.entries", "env.entries.ret",       \* an entries sync of a publisher: a sync like any other for the publisher's lock and the hooks (HLocked, Hook, HUnlock)
+          "w.next", "i.tick", "x.wait", "env.nested", "env.announce.denied", "d.select", "g.entry", "h.prelock", "env.xcancel", "env.announce.ret", "env.explicit",
           "e.enter", "l.preadd", "l.added", "l.prerm", "env.cancel.ret", "env.close", "c.expclosed",
           "c.expdone", "c.watchdone", "c.asyncdone", "c.inclosed", "final.end"}
 Skip == /\ l <= Len(Trace) /\ Ev.ev \in Skips /\ l' = l + 1
